@@ -260,20 +260,18 @@ func TestC03(t *testing.T) {
 	// quick: stashed arrays (edge) always, one heavier shape by seed (run/bitmap/heap arrays)
 	profs := []profSel{{inner: "edge", keyset: "low"}, {inner: inners[1+int(seed)%(len(inners)-1)], keyset: "gap"}}
 	if behav.Thorough() {
-		profs = nil
-		for i, in := range inners {
-			profs = append(profs, profSel{inner: in, keyset: []string{"low", "gap"}[i%2]})
-		}
+		// thorough: edge plus three rotating shapes per behaviour
+		profs = append(profs, profs[1], profs[1])
 	}
 	var distinct behav.Distinct
 	total := len(behs) * len(profs)
 	behav.Parallel(total, func(i int) {
 		bi, pi := i/len(profs), i%len(profs)
 		ps := profs[pi]
-		if !behav.Thorough() && pi > 0 {
-			// quick tier: the second profile rotates over all shapes (keys stay low/gap:
+		if pi > 0 {
+			// every profile but the first rotates over all shapes (keys stay low/gap:
 			// OffsetRange's exclusive end cannot express the top key)
-			r := rotProf(bi, seed)
+			r := rotProf(bi*3+pi, seed)
 			ps = profSel{inner: r.inner, keyset: []string{"low", "gap"}[(bi+int(seed))%2]}
 		}
 		c := &deriveCase{Beh: behs[bi], Inner: ps.inner, KeySet: ps.keyset, K: K, M: M, Seed: seed,
